@@ -37,7 +37,7 @@ struct Tx {
 impl World {
     fn new(max_in: i64, max_out: i64) -> Self {
         let lim = |x: i64| if x < 0 { None } else { Some(x as usize) };
-        let h = ManagerHarness::new(lim(max_in), lim(max_out), 2, vec!["/ip4/192.168.77.1/tcp/7777".parse().unwrap()]);
+        let h = ManagerHarness::new(lim(max_in), lim(max_out), 2, vharness::shapes::listen_addrs());
         let peers: Vec<(String, PeerId)> = PEERS.iter().map(|n| (n.to_string(), PeerId::random())).collect();
         let mut addrs = HashMap::new();
         for (i, (n, p)) in peers.iter().enumerate() {
@@ -194,7 +194,10 @@ impl World {
                 }
             }
             "dial_addr" => {
-                let addr = self.addrs[s["addr"].as_str().unwrap()].clone();
+                let addr = match s.get("maddr").and_then(|m| m.as_str()) {
+                    Some(raw) => raw.parse::<Multiaddr>().expect("shape address parses"),
+                    None => self.addrs[s["addr"].as_str().unwrap()].clone(),
+                };
                 match catch(|| self.h.dial_address(addr)) {
                     Ok(Ok(())) => ret = "ok".into(),
                     Ok(Err(e)) => {
@@ -234,6 +237,7 @@ impl World {
                 stim["p"] = json!(t.peer);
                 stim["dir"] = json!("out");
                 stim["mismatch"] = json!(self.pname(&peer) != t.peer);
+                stim["tcp_peer"] = json!(self.pname(&peer));
                 self.tx.get_mut(&c).unwrap().st = "est";
                 self.h.inject_established(peer, c, false, addr);
             }
@@ -433,6 +437,68 @@ fn run_behaviour(b: usize, max_in: i64, max_out: i64, stims: &[Value], src: &str
     (out, drift)
 }
 
+/// C05 "malformed or adversarial addresses": every constructible multiaddress shape is handed to
+/// `dial_address`; if the manager starts a dial the scripted transport concludes it the way the TCP
+/// transport would (it authenticates the peer named right after /tcp/<port>), then the peer the
+/// manager booked the dial for is probed.
+fn run_shapes(b0: usize, rng: &mut StdRng, per_class: usize, out: &mut Vec<String>) -> (usize, usize) {
+    use vharness::shapes::*;
+    let (mut nb, mut classes) = (0, 0);
+    for first in FIRSTS {
+        for second in SECONDS {
+            for tail in TAILS {
+                for local in ["no", "exact"] {
+                    let mut built = false;
+                    for inst in 0..per_class {
+                        let mut w = World::new(-1, -1);
+                        let own = w.peer("p1");
+                        let foreign = w.peer("p2");
+                        let node = w.h.local_peer_id();
+                        let Some(addr) = concretise(first, second, tail, local, own, foreign, node, rng) else { continue };
+                        built = true;
+                        // the peer the manager books the attempt for: the last /p2p component
+                        let booked = match addr.iter().last() {
+                            Some(Protocol::P2p(p)) => PeerId::from_multihash(p).ok().map(|p| w.pname(&p)).unwrap_or_else(|| "?".into()),
+                            _ => "?".into(),
+                        };
+                        let booked = if booked == "?" { "p3".to_string() } else { booked };
+                        out.push(json!({"e": "reset", "b": b0 + nb, "src": "shapes", "maxIn": -1, "maxOut": -1,
+                            "shape": {"first": first, "second": second, "tail": tail, "local": local}}).to_string());
+                        nb += 1;
+                        let Some(l) = w.apply(&json!({"a": "dial_addr", "p": booked, "addr": addr.to_string(), "maddr": addr.to_string()})) else { continue };
+                        out.push(l.to_string());
+                        // conclude whatever was started
+                        let pending: Vec<(usize, &'static str)> = w.tx.iter().map(|(c, t)| (*c, t.st)).collect();
+                        for (c, st) in pending {
+                            if st == "dialing" {
+                                // even instances: the remote is who the transport expects; odd: dial failure
+                                let s = if inst % 2 == 0 { json!({"a": "established", "c": c}) } else { json!({"a": "dial_fail", "c": c}) };
+                                if let Some(l) = w.apply(&s) {
+                                    out.push(l.to_string());
+                                }
+                                if w.tx[&c].st == "accepting" {
+                                    if let Some(l) = w.apply(&json!({"a": "accept_ok", "c": c})) {
+                                        out.push(l.to_string());
+                                    }
+                                    if let Some(l) = w.apply(&json!({"a": "closed", "c": c})) {
+                                        out.push(l.to_string());
+                                    }
+                                }
+                            }
+                        }
+                        if !w.outstanding() {
+                            out.push(json!({"e": "quiesce"}).to_string());
+                            w.probes(out);
+                        }
+                    }
+                    classes += built as usize;
+                }
+            }
+        }
+    }
+    (nb, classes)
+}
+
 fn run_random(b: usize, rng: &mut StdRng, len: usize) -> Vec<String> {
     let lims: [(i64, i64); 8] = [(-1, -1), (1, 1), (0, 1), (1, 0), (2, 1), (1, 2), (2, 2), (0, 0)];
     let (mi, mo) = lims[rng.gen_range(0..lims.len())];
@@ -493,7 +559,14 @@ fn main() {
         lines.extend(run_random(nb, &mut rng, rlen));
         nb += 1;
     }
+    let (mut shape_runs, mut shape_classes) = (0, 0);
+    if let Some(pc) = args.get("shapes") {
+        let (n, c) = run_shapes(nb, &mut rng, pc.parse().unwrap(), &mut lines);
+        nb += n;
+        shape_runs = n;
+        shape_classes = c;
+    }
     let events = lines.iter().filter(|l| l.contains("\"e\":\"step\"")).count();
     write_lines(&out, &lines);
-    println!("SUMMARY {}", json!({"behaviours": nb, "events": events, "not_applicable_stimulus": drift}));
+    println!("SUMMARY {}", json!({"behaviours": nb, "events": events, "not_applicable_stimulus": drift, "shape_runs": shape_runs, "shape_classes": shape_classes}));
 }
